@@ -14,6 +14,7 @@ From Strcase Require Import Base Utf8 Spec Kernels Impl Impl5 Impl6 Impl7 Instan
 From StrcaseGen Require Import AsmProg.
 From StrcaseGen Require Consts Oracle.
 From Strcase Require SrcConsts.
+From Strcase Require Import X86Isa X86IsaInst.
 
 Theorem C14_count_variants_equal : forall s c, wf s -> 0 <= c < 256 ->
   count_generic s c = count_simd s c.
@@ -124,3 +125,64 @@ Proof.
   apply SrcConsts.native_contract_src_le. exact Hrt.
 Qed.
 Print Assumptions C14_index_at_the_source_constants.
+
+(* ---- a processor that lacks a feature: the kernels never execute an AVX2 (VEX-encoded, 256-bit) instruction while
+   HasAVX2 is false, nor POPCNT while HasPOPCNT is false.  [run_strict] (X86Isa.v) is the machine on which those
+   instructions fault when their flag is false; from every exported entry point of the three assembly files, for
+   every argument, register file, surrounding memory, flag setting and number of steps, it does exactly what the
+   permissive machine of the kernel theorems does (abstract interpretation of the translated instruction lists:
+   which flags are known to come from the CMPB HasAVX2 / HasPOPCNT tests; closure sets checked by evaluation) ---- *)
+Theorem C14_kernels_execute_no_instruction_of_an_absent_feature :
+  no_unavailable_instruction prog_index_non_ascii_go122_amd64 entry_index_non_ascii_go122_amd64_IndexNonASCII /\
+  no_unavailable_instruction prog_index_non_ascii_go122_amd64 entry_index_non_ascii_go122_amd64_IndexByteNonASCII /\
+  no_unavailable_instruction prog_indexbyte_go122_amd64 entry_indexbyte_go122_amd64_IndexByteString /\
+  no_unavailable_instruction prog_indexbyte_go122_amd64 entry_indexbyte_go122_amd64_IndexByte /\
+  no_unavailable_instruction prog_count_go122_amd64 entry_count_go122_amd64_CountString /\
+  no_unavailable_instruction prog_count_go122_amd64 entry_count_go122_amd64_Count /\
+  no_unavailable_instruction prog_index_non_ascii_amd64 entry_index_non_ascii_amd64_IndexNonASCII /\
+  no_unavailable_instruction prog_index_non_ascii_amd64 entry_index_non_ascii_amd64_IndexByteNonASCII /\
+  no_unavailable_instruction prog_indexbyte_amd64 entry_indexbyte_amd64_IndexByteString /\
+  no_unavailable_instruction prog_indexbyte_amd64 entry_indexbyte_amd64_IndexByte /\
+  no_unavailable_instruction prog_count_amd64 entry_count_amd64_CountString /\
+  no_unavailable_instruction prog_count_amd64 entry_count_amd64_Count.
+Proof.
+  repeat split;
+    [exact isa_index_non_ascii_str|exact isa_index_non_ascii_byt|exact isa_index_byte_str|exact isa_index_byte_byt
+    |exact isa_count_str|exact isa_count_byt|exact isa_index_non_ascii_str_pre122|exact isa_index_non_ascii_byt_pre122
+    |exact isa_index_byte_str_pre122|exact isa_index_byte_byt_pre122|exact isa_count_str_pre122|exact isa_count_byt_pre122].
+Qed.
+Print Assumptions C14_kernels_execute_no_instruction_of_an_absent_feature.
+
+(* ... hence the kernel theorems hold on the processor without AVX2: e.g. IndexByteString, SSE only *)
+Theorem C14_index_byte_on_a_processor_without_avx2 : forall A s junk slot popcnt c r0,
+  4096 <= A -> A + X86.len s < two63 -> wf s ->
+  exists fuel, run_strict A s junk slot false popcnt c prog_indexbyte_go122_amd64 fuel
+                 entry_indexbyte_go122_amd64_IndexByteString (init r0) = Done (Some (k_index_byte s (c mod 256))).
+Proof.
+  intros A s junk slot popcnt c r0 HA Hl Hw.
+  destruct (index_byte_asm_str A s junk slot false popcnt c HA Hl Hw r0) as [fuel H].
+  exists fuel. rewrite isa_index_byte_str. exact H.
+Qed.
+Print Assumptions C14_index_byte_on_a_processor_without_avx2.
+
+Theorem C14_count_on_a_processor_without_avx2 : forall A s junk slot c r0,
+  4096 <= A -> A + X86.len s < two63 -> wf s ->
+  exists fuel, run_strict A s junk slot false true c prog_count_go122_amd64 fuel
+                 entry_count_go122_amd64_CountString (init r0) = Done (Some (k_count s (c mod 256))).
+Proof.
+  intros A s junk slot c r0 HA Hl Hw.
+  destruct (count_asm_str A s junk slot false true c HA Hl Hw r0 eq_refl) as [fuel H].
+  exists fuel. rewrite isa_count_str. exact H.
+Qed.
+Print Assumptions C14_count_on_a_processor_without_avx2.
+
+Theorem C14_index_non_ascii_on_a_processor_without_avx2 : forall A s junk slot popcnt c r0,
+  4096 <= A -> A + X86.len s < two63 -> wf s ->
+  exists fuel, run_strict A s junk slot false popcnt c prog_index_non_ascii_go122_amd64 fuel
+                 entry_index_non_ascii_go122_amd64_IndexNonASCII (init r0) = Done (Some (index_non_ascii s)).
+Proof.
+  intros A s junk slot popcnt c r0 HA Hl Hw.
+  destruct (index_non_ascii_str A s junk slot false popcnt c HA Hl Hw r0) as [fuel H].
+  exists fuel. rewrite isa_index_non_ascii_str. exact H.
+Qed.
+Print Assumptions C14_index_non_ascii_on_a_processor_without_avx2.
